@@ -373,7 +373,8 @@ func C11(x *Ctx) []Violation {
 		for a := range as {
 			A = a
 		}
-		conflict := false
+		// the receiver and the record variable of every generated method: such an alias cannot be kept (F-Z)
+		conflict := A == "mock" || A == "callInfo"
 		for _, other := range imps {
 			if other.Path == ii.Path {
 				continue
